@@ -78,6 +78,7 @@ type faultWriter struct {
 }
 
 func (w *faultWriter) Write(p []byte) (int, error) {
+	slowSinkPoint()
 	if w.Accept < 0 {
 		return w.buf.Write(p)
 	}
@@ -137,8 +138,13 @@ func runCU(c cuCase) (res AppRun) {
 	defer func() {
 		if r := recover(); r != nil {
 			switch r.(type) {
-			case abortNotMine, harnessError:
+			case abortNotMine, harnessError, oracleFailure:
 				panic(r)
+			case appPanic:
+				res.Panic, res.Failed = r.(appPanic).text, true
+				res.Stdout = c.Out.buf.String()
+				res.AppOut = appOut.String()
+				return
 			}
 			res.Panic = fmt.Sprintf("%v\n%s", r, trimStack(string(debug.Stack())))
 			res.Failed = true
@@ -160,7 +166,8 @@ func runCU(c cuCase) (res AppRun) {
 		summary.NewSummaryCommand(cu, summary.Summary),
 		print.NewPrintCommand(cu, print.Print),
 	}
-	err := a.Run(append([]string{"hranoprovod-cli"}, c.Args...))
+	// (thread "main" of a scheduler, like every application run: goroutines the command starts are scheduled)
+	err := runScheduled(func() error { return a.Run(append([]string{"hranoprovod-cli"}, c.Args...)) })
 	if err != nil {
 		res.Failed = true
 		res.Err = err.Error()
